@@ -1,11 +1,14 @@
 import Ts.Order
 import Ts.DeploySpec
+import Ts.ResolveSound
 
 /-! # C10 — property theorems (statements only; proofs live in the family libraries)
 
-The planner-like part of C10 (`Pipeline.resolve`) is validated per run: every order the real `Initialize` returns is
-checked by `Ord.orderValid`; `orderValid_sound` is the proof that acceptance implies the property, `down_sound` that the
-exemption it uses is exactly "downstream" and no more. -/
+`Pipeline.resolve` on item sets in which every entity has at most one provider is *proved* (`resolveU_sound`, about the
+model `resolveU` that is compared with the real function on every run; its premises are the decidable `wfItemsCheck`,
+evaluated by the driver on every compared case).  The ambiguity block of `resolve` (an entity with two providers) is
+validated per run: every order the real `Initialize` returns is checked by `Ord.orderValid`; `orderValid_sound` is the
+proof that acceptance implies the property, `down_sound` that the exemption it uses is exactly "downstream" and no more. -/
 
 set_option linter.unusedVariables false
 
@@ -38,6 +41,24 @@ theorem deploy_spec :
       (∀ x ∈ rest, x.name ∉ present ++ [leaf.name]) ∧
       (∀ x, x ∈ rest ↔ New reg (feats0 ++ leaf.features) (present ++ [leaf.name]) leaf x) :=
   @Dp.deploy_spec
+end
+
+section
+open Ts Kahn
+
+/-- `Pipeline.resolve`, every entity provided at most once: a successful resolution is a duplicate-free list of exactly the
+items; every requirement of every item has a provider among them; every provider comes before the item that requires it -/
+theorem resolveU_sound :
+    ∀ (items : List RItem) (hw : WFItems items) (order : List Nat) (h : resolveU items = .ok order),
+    order.Nodup ∧ (∀ x, x ∈ order ↔ ∃ it ∈ items, x = it.name) ∧
+    (∀ q ∈ items, ∀ k ∈ q.requires, ∃ p ∈ items, k ∈ p.provides) ∧
+    (∀ q ∈ items, ∀ k ∈ q.requires, ∀ p ∈ items, k ∈ p.provides → Before order p.name q.name) :=
+  @Ts.resolveU_sound
+
+/-- the premises are decided by a checker the driver runs on every compared case -/
+theorem wfItemsCheck_sound :
+    ∀ (items : List RItem) (h : wfItemsCheck items = true), WFItems items :=
+  @Ts.wfItemsCheck_sound
 end
 
 end Props.C10
